@@ -4,6 +4,7 @@ import (
 	"fmt"
 	"math/big"
 	"math/rand"
+	"os"
 	"strings"
 
 	sdkmath "cosmossdk.io/math"
@@ -24,7 +25,11 @@ const c05N, c05K = 6, 3
 
 func c05Addr(i int) common.Address { return common.BytesToAddress(testAddr(500 + i)) }
 
-func c05Gen(r *rand.Rand, tier string, withBank bool) []Case {
+// c05Gen: mode "C05" = journals with reverts (commits may fall inside reverted spans: the flush a stateful
+// precompile performs); mode "C02" = what a transaction does to balances: transfers, flushes, bank movements
+// mirrored into the StateDB (and, rarely and marked, not mirrored), reverts only over spans without a flush.
+func c05Gen(r *rand.Rand, tier string, mode string) []Case {
+	withBank := mode == "C02"
 	n, maxOps := 150, 40
 	if tier == "thorough" {
 		n, maxOps = 5000, 120
@@ -37,6 +42,7 @@ func c05Gen(r *rand.Rand, tier string, withBank bool) []Case {
 		var snaps []int
 		nextID := 0
 		refund := int64(0)
+		unmirrored := withBank && r.Intn(12) == 0
 		warm := r.Intn(2) == 0
 		if warm {
 			for a := 0; a < c05N; a++ {
@@ -56,7 +62,11 @@ func c05Gen(r *rand.Rand, tier string, withBank bool) []Case {
 				if r.Intn(8) == 0 {
 					amt = 0
 				}
-				c = append(c, fmt.Sprintf("subbal %d %d", a, amt), fmt.Sprintf("addbal %d %d", b, amt))
+				if withBank {
+					c = append(c, fmt.Sprintf("xfer %d %d %d", a, b, amt))
+				} else {
+					c = append(c, fmt.Sprintf("subbal %d %d", a, amt), fmt.Sprintf("addbal %d %d", b, amt))
+				}
 				cache[a] -= amt
 				cache[b] += amt
 			case x < 8:
@@ -98,21 +108,45 @@ func c05Gen(r *rand.Rand, tier string, withBank bool) []Case {
 				}
 			case x < 22:
 				if r.Intn(3) == 0 {
-					c = append(c, fmt.Sprintf("suicide %d", a))
-					cache[a] = 0
+					if withBank && a != b { // SELFDESTRUCT pays the beneficiary first
+						c = append(c, fmt.Sprintf("selfdestruct %d %d ?", a, b))
+						cache[b] += cache[a]
+						cache[a] = 0
+					} else if !withBank {
+						c = append(c, fmt.Sprintf("suicide %d", a))
+						cache[a] = 0
+					}
 				}
 			case x < 23:
 				c = append(c, "commit", "dump")
+				if withBank {
+					snaps = nil
+				}
+				if r.Intn(2) == 0 && cache[a] > 0 && a != b {
+					// round trip: a pays b, flush, b pays a back — the balances return to their loaded values
+					amt := 1 + r.Int63n(cache[a])
+					if withBank {
+						c = append(c, fmt.Sprintf("xfer %d %d %d", a, b, amt), "commit", fmt.Sprintf("xfer %d %d %d", b, a, amt), "commit", "dump")
+					} else {
+						c = append(c, fmt.Sprintf("subbal %d %d", a, amt), fmt.Sprintf("addbal %d %d", b, amt), "commit",
+							fmt.Sprintf("subbal %d %d", b, amt), fmt.Sprintf("addbal %d %d", a, amt), "commit", "dump")
+					}
+				}
 			default:
 				if withBank {
 					amt := int64(1 + r.Intn(50))
 					sign := pick(r, []string{"+", "-"})
-					c = append(c, "commit", fmt.Sprintf("bank %d %s %d", a%3, sign, amt))
-					if r.Intn(2) == 0 { // mirrored into the StateDB, as the precompiles do for the caller
+					// the account a precompile moves coins of is its caller: an executing contract, so its object is loaded
+					c = append(c, fmt.Sprintf("accaddr %d", a%3), fmt.Sprintf("setstate %d 0 %d", a%3, r.Intn(4)), "commit")
+					snaps = nil
+					if unmirrored && r.Intn(3) == 0 {
+						c = append(c, fmt.Sprintf("bank %d %s %d", a%3, sign, amt))
+					} else {
+						c = append(c, fmt.Sprintf("bankm %d %s %d", a%3, sign, amt))
 						if sign == "+" {
-							c = append(c, fmt.Sprintf("addbal %d %d", a%3, amt))
+							cache[a%3] += amt
 						} else {
-							c = append(c, fmt.Sprintf("subbal %d %d", a%3, amt))
+							cache[a%3] -= amt
 						}
 					}
 				}
@@ -124,18 +158,81 @@ func c05Gen(r *rand.Rand, tier string, withBank bool) []Case {
 		c = append(c, "dump", "commit", "dump")
 		out = append(out, c)
 	}
+	// real transactions through the puppet contract
+	np := 40
+	if tier == "thorough" {
+		np = 600
+	}
+	for i := 0; i < np; i++ {
+		out = append(out, Case{puppetGenLine(r, mode)})
+	}
 	return out
+}
+
+// puppetGenLine generates one puppet transaction: value, and a script with nested frames.
+func puppetGenLine(r *rand.Rand, mode string) string {
+	var toks []string
+	var gen func(depth int, inReverted bool)
+	gen = func(depth int, inReverted bool) {
+		n := 1 + r.Intn(4)
+		for j := 0; j < n; j++ {
+			switch x := r.Intn(12); {
+			case x < 3:
+				toks = append(toks, fmt.Sprintf("S:%d:%d", r.Intn(3), 1+r.Intn(6)))
+			case x < 4:
+				toks = append(toks, "L")
+			case x < 6:
+				toks = append(toks, fmt.Sprintf("P:%d", 1+r.Intn(1000)))
+			case x < 7:
+				toks = append(toks, fmt.Sprintf("D:%d", 1000+r.Intn(100000)))
+			case x < 8:
+				toks = append(toks, fmt.Sprintf("G:%d", 1000+r.Intn(100000)))
+			case x < 11:
+				if depth < 3 {
+					rv := r.Intn(3) != 0
+					toks = append(toks, "[")
+					gen(depth+1, inReverted || rv)
+					if rv {
+						toks = append(toks, "]R")
+					} else {
+						toks = append(toks, "]")
+					}
+				}
+			default:
+				toks = append(toks, fmt.Sprintf("S:%d:%d", r.Intn(3), 1+r.Intn(6)))
+			}
+		}
+	}
+	gen(0, false)
+	value := 0
+	if r.Intn(2) == 0 {
+		value = 1 + r.Intn(5000)
+	}
+	gas := 2_000_000
+	if r.Intn(8) == 0 && !strings.Contains(strings.Join(toks, ","), "[") {
+		gas = 30_000 + r.Intn(200_000) // may run out of gas: the transaction then fails as a whole
+	}
+	return fmt.Sprintf("ptx # value=%d gas=%d script=%s", value, gas, strings.Join(toks, ","))
 }
 
 func init() {
 	Register(&Property{
 		ID:   "C05",
-		Gen:  func(r *rand.Rand, tier string) []Case { return c05Gen(r, tier, false) },
-		Exec: c05Exec,
+		Gen:  func(r *rand.Rand, tier string) []Case { return c05Gen(r, tier, "C05") },
+		Exec: func(c Case) ([]string, []Failure, []string) { return c05Exec(c, "C05") },
 		NonTrivial: func(tags []string) bool {
 			return hasTag(tags, "revert-ok")
 		},
-		Rule: "random journals on the real StateDB over the application's EVM keeper: value transfers (incl. zero and to non-existent accounts), storage writes, nonce, refund counter, logs, access-list addresses and slots (cold and pre-warmed), selfdestruct, nested snapshots, reverts to any still-valid snapshot (not only the latest), commits in the middle; after every revert the whole observable state (cache and keeper side) is dumped and compared; non-trivial = at least one successful revert; distinct = distinct op sequences",
+		Rule: "(a) random journals on the real StateDB over the application's EVM keeper: value transfers (incl. zero and to non-existent accounts), storage writes, nonce, refund counter, logs, access-list addresses and slots (cold and pre-warmed), selfdestruct, nested snapshots, reverts to any still-valid snapshot (not only the latest), commits in the middle; after every revert the whole observable state (cache and keeper side) is dumped and compared; (b) real signed Ethereum transactions to a script-interpreting contract: nested frames that revert or not, storage writes, logs, value transfers, staking-precompile delegations of the origin's and of the contract's own coins, also with too little gas; every observable (slots, logs, balances, delegations) is compared with the property's reading of the script; non-trivial = at least one successful revert / a transaction with a reverted inner frame; distinct = distinct op sequences",
+	})
+	Register(&Property{
+		ID:   "C02",
+		Gen:  func(r *rand.Rand, tier string) []Case { return c05Gen(r, tier, "C02") },
+		Exec: func(c Case) ([]string, []Failure, []string) { return c05Exec(c, "C02") },
+		NonTrivial: func(tags []string) bool {
+			return hasTag(tags, "commit-with-dirty") || hasTag(tags, "ptx-ok")
+		},
+		Rule: "(a) balance histories on the real StateDB over the application's EVM keeper and bank: value transfers, round trips that return balances to their loaded values across a flush, storage/nonce writes, snapshots and reverts, Commit in the middle (precompile entry), bank movements against an outside pool mirrored by AddBalance/SubBalance as the precompiles do for their caller (1 case in 12 also contains unmirrored movements, marked bankraw); after every Commit the supply and every bank balance are compared with the EVM's view; (b) real signed Ethereum transactions to the script-interpreting contract with value, payments, delegations of the origin's coins by grant and of the contract's own coins, nested and reverted frames; supply and the bank balances of origin, contract and payee are compared with the property's reading of the script; non-trivial = a commit with dirty accounts / an executed puppet transaction; distinct = distinct op sequences",
 	})
 }
 
@@ -145,12 +242,16 @@ type c05Env struct {
 	supply0 *big.Int
 	// EVM-visible state remembered at each snapshot, for the revert monitor (independent of the model)
 	snaps map[int]string
+	// snapshots that were followed by a Commit (the flush every stateful precompile performs on entry)
+	flushed map[int]bool
+	// the case contains a bank movement that is not mirrored into the StateDB
+	rawBank bool
 }
 
-func c05Exec(c Case) (outs []string, fails []Failure, tags []string) {
+func c05Exec(c Case, prop string) (outs []string, fails []Failure, tags []string) {
 	nw, _ := fixture()
 	app := nw.App
-	env := &c05Env{snaps: map[int]string{}}
+	env := &c05Env{snaps: map[int]string{}, flushed: map[int]bool{}}
 	denom := nw.GetDenom()
 	pool := testAddr(599)
 	view := func() string {
@@ -198,6 +299,9 @@ func c05Exec(c Case) (outs []string, fails []Failure, tags []string) {
 			defer func() {
 				if r := recover(); r != nil {
 					out = "panic"
+					if f[0] == "ptx" {
+						fmt.Fprintln(os.Stderr, "ptx panic:", r)
+					}
 				}
 			}()
 			arg := func(k int) *big.Int { return mustBig(f[k]) }
@@ -222,12 +326,36 @@ func c05Exec(c Case) (outs []string, fails []Failure, tags []string) {
 				env.db = statedb.New(env.ctx, app.EvmKeeper, statedb.NewEmptyTxConfig(common.Hash{}))
 				env.supply0 = app.BankKeeper.GetSupply(env.ctx, denom).Amount.BigInt()
 				env.snaps = map[int]string{}
+				env.flushed = map[int]bool{}
+				env.rawBank = false
 				out = "ok"
 			case "addbal":
 				env.db.AddBalance(ad(1), arg(2))
 				out = "ok"
 			case "subbal":
-				env.db.SubBalance(ad(1), arg(2))
+				// the EVM never debits more than the balance (CanTransfer): clamp what the generator's rough ledger got wrong
+				amt := arg(2)
+				if cur := env.db.GetBalance(ad(1)); amt.Cmp(cur) > 0 {
+					amt = new(big.Int).Set(cur)
+					f[2] = amt.String()
+					c[i] = strings.Join(f, " ")
+				}
+				env.db.SubBalance(ad(1), amt)
+				out = "ok"
+			case "xfer":
+				// CanTransfer + Transfer: never more than the sender has
+				amt := arg(3)
+				if cur := env.db.GetBalance(ad(1)); amt.Cmp(cur) > 0 {
+					amt = new(big.Int).Set(cur)
+				}
+				if env.db.HasSuicided(ad(2)) {
+					// coins sent to a self-destructed account are destroyed with it (an explicit burn): not generated
+					amt = big.NewInt(0)
+				}
+				f[3] = amt.String()
+				c[i] = strings.Join(f, " ")
+				env.db.SubBalance(ad(1), amt)
+				env.db.AddBalance(ad(2), amt)
 				out = "ok"
 			case "setnonce":
 				env.db.SetNonce(ad(1), arg(2).Uint64())
@@ -245,6 +373,20 @@ func c05Exec(c Case) (outs []string, fails []Failure, tags []string) {
 				env.db.AddLog(&ethtypes.Log{Address: c05Addr(0)})
 				out = "ok"
 			case "suicide":
+				env.db.Suicide(ad(1))
+				out = "ok"
+			case "noop":
+				out = "ok"
+			case "selfdestruct":
+				if env.db.HasSuicided(ad(2)) || !env.db.Exist(ad(1)) {
+					c[i] = "noop"
+					out = "ok"
+					return
+				}
+				bal := env.db.GetBalance(ad(1))
+				f[3] = bal.String()
+				c[i] = strings.Join(f, " ")
+				env.db.AddBalance(ad(2), bal)
 				env.db.Suicide(ad(1))
 				out = "ok"
 			case "accaddr":
@@ -265,21 +407,97 @@ func c05Exec(c Case) (outs []string, fails []Failure, tags []string) {
 				tags = append(tags, "revert-ok")
 				// the property's own predicate: everything the EVM can observe equals what it was at the snapshot
 				if got := view(); known && got != want {
-					fails = append(fails, Failure{Signature: "C05:revert-leaves-trace", What: fmt.Sprintf("after RevertToSnapshot(%d) the EVM-visible state is\n  %s\nat the snapshot it was\n  %s", id, got, want), Case: c[:i+1]})
+					sig := "C05:revert-leaves-trace"
+					if env.flushed[id] {
+						// a Commit happened inside the reverted span: that is what a stateful precompile call does on entry
+						sig = "C05:flush-then-revert:evm-state-persists"
+					}
+					fails = append(fails, Failure{Signature: sig, What: fmt.Sprintf("after RevertToSnapshot(%d) the EVM-visible state is\n  %s\nat the snapshot it was\n  %s", id, got, want), Case: c[:i+1]})
 				}
 				for k := range env.snaps {
 					if k >= id {
 						delete(env.snaps, k)
+						delete(env.flushed, k)
 					}
 				}
 			case "commit":
+				for id := range env.snaps {
+					env.flushed[id] = true
+				}
 				if err := env.db.Commit(); err != nil {
 					out = "err:" + strings.ReplaceAll(err.Error(), " ", "_")
 				} else {
 					out = "ok"
 				}
-			case "bank":
+				_ = view() // looks every account up (and so caches it), for C05 and C02 alike
+				if prop == "C02" {
+					// the property's own predicate: Commit neither mints nor burns in total, and the bank shows what the EVM sees
+					tags = append(tags, "commit-with-dirty")
+					var bad []string
+					if d := new(big.Int).Sub(app.BankKeeper.GetSupply(env.ctx, denom).Amount.BigInt(), env.supply0); d.Sign() != 0 {
+						bad = append(bad, "supply changed by "+d.String())
+					}
+					for a := 0; a < c05N; a++ {
+						bank := app.BankKeeper.GetBalance(env.ctx, c05Addr(a).Bytes(), denom).Amount.BigInt()
+						if evm := env.db.GetBalance(c05Addr(a)); evm.Cmp(bank) != 0 {
+							bad = append(bad, fmt.Sprintf("account %d: EVM sees %s, bank holds %s", a, evm, bank))
+						}
+					}
+					if len(bad) > 0 {
+						sig := "C02:commit:bank-diverges-from-evm-view"
+						if env.rawBank {
+							sig = "C02:unmirrored-bank-movement-of-cached-account:overwritten-by-commit"
+						}
+						fails = append(fails, Failure{Signature: sig, What: "after Commit: " + strings.Join(bad, "; "), Case: c[:i+1]})
+					}
+				}
+			case "bankm":
+				// a precompile's bank movement of its caller followed by the mirroring AddBalance / SubBalance
 				a := sdk.AccAddress(ad(1).Bytes())
+				amt := arg(3)
+				if env.db.HasSuicided(ad(1)) {
+					amt = big.NewInt(0)
+					f[3] = "0"
+					c[i] = strings.Join(f, " ")
+				}
+				if f[2] == "-" {
+					if cur := app.BankKeeper.GetBalance(env.ctx, a, denom).Amount.BigInt(); amt.Cmp(cur) > 0 {
+						amt = cur
+						f[3] = amt.String()
+						c[i] = strings.Join(f, " ")
+					}
+				}
+				if amt.Sign() > 0 {
+					coins := sdk.NewCoins(sdk.NewCoin(denom, sdkmath.NewIntFromBigInt(amt)))
+					if f[2] == "+" {
+						if err := app.BankKeeper.SendCoins(env.ctx, pool, a, coins); err != nil {
+							panic(err)
+						}
+						env.db.AddBalance(ad(1), amt)
+					} else {
+						if err := app.BankKeeper.SendCoins(env.ctx, a, pool, coins); err != nil {
+							panic(err)
+						}
+						env.db.SubBalance(ad(1), amt)
+					}
+				}
+				out = "ok"
+			case "ptx":
+				out = "skip"
+				c05Ptx(f, prop, c[i:i+1], &fails, &tags)
+			case "bank":
+				env.rawBank = true
+				a := sdk.AccAddress(ad(1).Bytes())
+				if f[2] == "-" {
+					if cur := app.BankKeeper.GetBalance(env.ctx, a, denom).Amount.BigInt(); arg(3).Cmp(cur) > 0 {
+						f[3] = cur.String()
+						c[i] = strings.Join(f, " ")
+					}
+				}
+				if arg(3).Sign() == 0 {
+					out = "ok"
+					return
+				}
 				coins := sdk.NewCoins(sdk.NewCoin(denom, sdkmath.NewIntFromBigInt(arg(3))))
 				var err error
 				if f[2] == "+" {
@@ -314,4 +532,101 @@ func c05Exec(c Case) (outs []string, fails []Failure, tags []string) {
 		outs = append(outs, out)
 	}
 	return
+}
+
+// c05Ptx runs one puppet transaction on the real application and evaluates the C05 / C02 predicates on it.
+func c05Ptx(f []string, prop string, line Case, fails *[]Failure, tags *[]string) {
+	puppetSetup()
+	nw, _ := fixture()
+	kv := vmKV(f)
+	value := mustBig(kv["value"])
+	gas := uint64(vmIdx(kv["gas"]))
+	var toks []string
+	if kv["script"] != "" {
+		toks = strings.Split(kv["script"], ",")
+	}
+	ctx := nw.GetContext()
+	ref := puppetRef{dE: new(big.Int).Neg(value), dP: new(big.Int).Set(value), dX: big.NewInt(0), bondE: big.NewInt(0), bondP: big.NewInt(0)}
+	var pre [3]int64
+	for k := 0; k < 3; k++ {
+		pre[k] = nw.App.EvmKeeper.GetState(ctx, puppetAddr, common.BigToHash(big.NewInt(int64(k)))).Big().Int64()
+	}
+	ref.slots = pre
+	sc := puppetCompile(toks, &ref, nw.GetValidators()[0].OperatorAddress)
+	o := puppetRun(value, sc.bytes, gas)
+	fl := func(sig, what string) {
+		*fails = append(*fails, Failure{Signature: sig, What: what + "\n  observed: " + o.String(), Case: line})
+	}
+	if o.code != 0 {
+		// rejected before execution (ante / intrinsic gas): nothing to judge
+		*tags = append(*tags, "ptx-rejected")
+		return
+	}
+	if o.failed {
+		// the transaction failed as a whole: nothing but the fee and the nonce may change
+		*tags = append(*tags, "ptx-failed")
+		ref = puppetRef{slots: pre, dE: big.NewInt(0), dP: big.NewInt(0), dX: big.NewInt(0), bondE: big.NewInt(0), bondP: big.NewInt(0)}
+	} else {
+		*tags = append(*tags, "ptx-ok")
+		if strings.Contains(kv["script"], "]R") {
+			*tags = append(*tags, "revert-ok")
+		}
+	}
+	var diffs []string
+	cmp := func(name string, got, want *big.Int) bool {
+		if got.Cmp(want) != 0 {
+			diffs = append(diffs, fmt.Sprintf("%s is %s, the script says %s", name, got, want))
+			return false
+		}
+		return true
+	}
+	known := func(base string) string {
+		switch {
+		case sc.precompileInReverted:
+			return base + ":precompile-call-inside-reverted-frame"
+		case o.failed && (sc.grantDelegate || strings.Contains(kv["script"], "G:")):
+			return base + ":precompile-call-in-failed-transaction"
+		}
+		return base
+	}
+	if prop == "C05" {
+		ok := true
+		for k := 0; k < 3; k++ {
+			if o.slots[k] != ref.slots[k] {
+				diffs = append(diffs, fmt.Sprintf("slot %d is %d, the script says %d", k, o.slots[k], ref.slots[k]))
+				ok = false
+			}
+		}
+		ok = cmp("the origin's delegation change", o.bondE, ref.bondE) && ok
+		ok = cmp("the contract's delegation change", o.bondP, ref.bondP) && ok
+		ok = cmp("the payee's balance change", o.dX, ref.dX) && ok
+		if !o.failed && o.logs != ref.logs {
+			diffs = append(diffs, fmt.Sprintf("%d contract logs, the script says %d", o.logs, ref.logs))
+			ok = false
+		}
+		if o.failed && o.logs != 0 {
+			diffs = append(diffs, fmt.Sprintf("%d contract logs in a failed transaction", o.logs))
+			ok = false
+		}
+		if !ok {
+			fl(known("C05:tx:reverted-frame-leaves-trace"), strings.Join(diffs, "; "))
+		}
+		return
+	}
+	// C02
+	ok := true
+	if o.dSupply.Sign() != 0 {
+		diffs = append(diffs, "the total supply changed by "+o.dSupply.String())
+		ok = false
+	}
+	ok = cmp("the origin's bank balance change (net of the fee)", o.dE, ref.dE) && ok
+	ok = cmp("the contract's bank balance change", o.dP, ref.dP) && ok
+	ok = cmp("the payee's bank balance change", o.dX, ref.dX) && ok
+	if !ok {
+		sig := known("C02:tx:bank-diverges-from-evm-view")
+		if sig == "C02:tx:bank-diverges-from-evm-view" && sc.grantDelegate && value.Sign() > 0 {
+			sig += ":unmirrored-grant-delegation-of-dirty-origin"
+		}
+		fl(sig, strings.Join(diffs, "; "))
+	}
 }
